@@ -285,11 +285,11 @@ theorem bindSimple_shape {env : Env} {file : AFile} {G : List String} {Γ : Ctx}
     left `D1` (declarations of `d1`) on top of it -/
 theorem let_body {env : Env} {η η1 : Hp} {file : AFile} {G : List String} {P : Prog} {F : GFile} {n : Nat}
     (ha : SimA env file G P F n) (m : Mode) (st2 : St) (x : String) (tx : Ty) (body : AExpr) (Γ : Ctx) (K : KCtx) (ρ : Sem.Env)
-    (gρ : GEnv) (gw : GWorld) (Bad : List String) (Pre : List GStmt) (dsP : List String)
+    (gρ : GEnv) (gw : GWorld) (Bad : List String) (Pre : List GStmt)
     (D1 : GEnv) (vv : Val) (gv : GVal) (w1 : World) (gw1 : GWorld)
-    (hdP : ndDecls Pre = vn x :: dsP)
     (hpre : BlockS F gρ gw Pre (.ok (D1 ++ (vn x, gv) :: gρ, .normal) gw1))
-    (hD1 : ∀ y, y ∈ keys D1 → y ∈ dsP)
+    (hDtop : ∀ y, y ∈ keys (D1 ++ [(vn x, gv)]) → y ∈ topDecls Pre)
+    (hD1x : ¬ vn x ∈ keys D1)
     (hinv : GInv Bad (Pre ++ (compileA env m st2 body).1) gρ)
     (hrel0 : EnvRel env η Γ ρ gρ) (hle1 : η.le η1) (hkrel : KRel K ρ) (h3 : VRel env η1 vv tx gv) (h4 : HasTy env η1 vv tx) (hw1 : WRel env η1 w1 gw1)
     (hfb : fragA env file G ((x, tx) :: Γ) (eraseK K x) body = true) (htgt : TgtOK m Γ gρ (aTy body)) (hus : "_" ∈ Bad)
@@ -297,15 +297,10 @@ theorem let_body {env : Env} {η η1 : Hp} {file : AFile} {G : List String} {P :
     Concl env η F (Pre ++ (compileA env m st2 body).1) m gρ gw (aTy body)
       (Sem.eval n P ((x, vv) :: ρ) w1 body.toExpr) := by
   have hrel : EnvRel env η1 Γ ρ gρ := hrel0.mono hle1
-  have hdecls : ndDecls (Pre ++ (compileA env m st2 body).1) =
-      vn x :: (dsP ++ ndDecls (compileA env m st2 body).1) := by
-    rw [ndDecls_append, hdP]; rfl
-  have hnd := hinv.nodup; rw [hdecls] at hnd
-  obtain ⟨hxnot, hnd'⟩ := List.nodup_cons.mp hnd
-  have hfresh : ¬ vn x ∈ keys gρ := hinv.disj _ (by rw [hdecls]; exact List.mem_cons_self)
+  have htopfresh : ∀ y, y ∈ topDecls Pre → ¬ y ∈ keys gρ := fun y hy => (sokB_top Pre _ hinv.left.sok y hy).2
+  have hfresh : ¬ vn x ∈ keys gρ := htopfresh _ (hDtop _ (by simp [keys_append]))
   have hD1disj : ∀ y, y ∈ keys D1 → ¬ y ∈ keys gρ := fun y hy =>
-    hinv.disj y (by rw [hdecls]; exact List.mem_cons_of_mem _ (List.mem_append_left _ (hD1 y hy)))
-  have hD1x : ¬ vn x ∈ keys D1 := fun h => hxnot (List.mem_append_left _ (hD1 _ h))
+    htopfresh y (hDtop y (by rw [keys_append]; exact List.mem_append_left _ hy))
   -- environments after the prefix
   have hrel2 : EnvRel env η1 ((x, tx) :: Γ) ((x, vv) :: ρ) (D1 ++ (vn x, gv) :: gρ) := by
     refine (hrel.cons hfresh h3 h4).go_agree (fun y ty hy => lookup_append_right ?_ _)
@@ -316,12 +311,7 @@ theorem let_body {env : Env} {η η1 : Hp} {file : AFile} {G : List String} {P :
     · rw [hk]; exact hD1x
     · exact fun h => hD1disj _ h hk
   have hinv2 : GInv Bad (compileA env m st2 body).1 (D1 ++ (vn x, gv) :: gρ) := by
-    have := GInv.right (D := D1 ++ [(vn x, gv)]) (U := gρ) hinv rfl (fun y hy => by
-      rw [keys_append, List.mem_append] at hy
-      rw [hdP]
-      rcases hy with hy | hy
-      · exact List.mem_cons_of_mem _ (hD1 y hy)
-      · simp only [Goml.Dce.keys_cons, Goml.Dce.keys_nil, List.mem_singleton] at hy; subst hy; exact List.mem_cons_self)
+    have := GInv.right (D := D1 ++ [(vn x, gv)]) (U := gρ) hinv rfl hDtop
     simpa [List.append_assoc] using this
   have htgt2 : TgtOK m ((x, tx) :: Γ) (D1 ++ (vn x, gv) :: gρ) (aTy body) := by
     cases m with
@@ -350,14 +340,11 @@ theorem let_body {env : Env} {η η1 : Hp} {file : AFile} {G : List String} {P :
     refine ⟨η2, Hp.le_trans hle1 hle2, D2 ++ (D1 ++ [(vn x, gv)]), gv2, gw2, ?_, g3, g4, g5, fun y hy => ?_⟩
     · have := block_append hpre hb
       simpa [List.append_assoc] using this
-    · rw [hdecls]
+    · rw [topDecls_append]
       rw [keys_append, List.mem_append] at hy
       rcases hy with hy | hy
-      · exact List.mem_cons_of_mem _ (List.mem_append_right _ (hD2 y hy))
-      · rw [keys_append, List.mem_append] at hy
-        rcases hy with hy | hy
-        · exact List.mem_cons_of_mem _ (List.mem_append_left _ (hD1 y hy))
-        · simp only [Goml.Dce.keys_cons, Goml.Dce.keys_nil, List.mem_singleton] at hy; subst hy; exact List.mem_cons_self
+      · exact List.mem_append_right _ (hD2 y hy)
+      · exact List.mem_append_left _ (hDtop y hy)
   | fail fl w2 =>
     cases fl with
     | panic k =>
@@ -391,10 +378,8 @@ theorem stepA {env : Env} {file : AFile} {G : List String} {P : Prog} {F : GFile
       have hcons : ∀ (l1 l2 : List GStmt), GStmt.varDecl (vn x) (goTy v.annTy) none :: (l1 ++ l2) =
           (GStmt.varDecl (vn x) (goTy v.annTy) none :: l1) ++ l2 := fun _ _ => rfl
       rw [hcons] at hinv ⊢
-      have hdecls : ndDecls ((GStmt.varDecl (vn x) (goTy v.annTy) none :: d.1) ++ (compileA env m d.2 body).1) =
-          vn x :: (ndDecls d.1 ++ ndDecls (compileA env m d.2 body).1) := by
-        rw [ndDecls_append, ndDecls_varDecl]; rfl
-      have hfresh : ¬ vn x ∈ keys gρ := hinv.disj _ (by rw [hdecls]; exact List.mem_cons_self)
+      have hinvP : GInv Bad (GStmt.varDecl (vn x) (goTy v.annTy) none :: d.1) gρ := hinv.left
+      obtain ⟨hfresh, _, hsokd⟩ := hinvP.varDecl
       have hvd : StmtS F gρ gw (.varDecl (vn x) (goTy v.annTy) none) (.ok ((vn x, zero F (goTy v.annTy)) :: gρ, .normal) gw) :=
         stmt_varDecl_none (flat_not_absurd hsc)
       have hne : ∀ y ty, lookupTy Γ y = some ty → vn y ≠ vn x := fun y ty hy e => by
@@ -402,12 +387,7 @@ theorem stepA {env : Env} {file : AFile} {G : List String} {P : Prog} {F : GFile
         exact hfresh (e ▸ key_of_lookup_some h2)
       have hrel1 : EnvRel env η Γ ρ ((vn x, zero F (goTy v.annTy)) :: gρ) :=
         hrel.go_agree (fun y ty hy => lookup_cons_ne _ _ (fun e => hne y ty hy e.symm))
-      have hinvd : GInv Bad d.1 ((vn x, zero F (goTy v.annTy)) :: gρ) := by
-        have h1 := GInv.right (a := [GStmt.varDecl (vn x) (goTy v.annTy) none]) (b := d.1 ++ (compileA env m d.2 body).1)
-          (D := [(vn x, zero F (goTy v.annTy))]) (U := gρ) (by simpa using hinv) rfl (fun y hy => by
-            simp only [Goml.Dce.keys_cons, Goml.Dce.keys_nil, List.mem_singleton] at hy; subst hy
-            rw [ndDecls_varDecl]; exact List.mem_cons_self)
-        exact h1.left
+      have hinvd : GInv Bad d.1 ((vn x, zero F (goTy v.annTy)) :: gρ) := hinvP.after_varDecl _
       have htgtd : TgtOK (.assign (rn x)) Γ ((vn x, zero F (goTy v.annTy)) :: gρ) v.annTy := by
         refine ⟨by rw [← vn_def]; simp, fun y ty hy => ?_⟩
         rw [← vn_def]; exact hne y ty hy
@@ -421,8 +401,16 @@ theorem stepA {env : Env} {file : AFile} {G : List String} {P : Prog} {F : GFile
         have hup : post (.assign (rn x)) ((vn x, zero F (goTy v.annTy)) :: gρ) gv = (vn x, gv) :: gρ := by
           simp only [post]; rw [← vn_def]; exact update_cons_self _ _ _ _
         rw [hup] at hb
-        exact let_body ha m d.2 x v.annTy body Γ K ρ gρ gw Bad _ (ndDecls d.1) D1 vv gv w1 gw1 (ndDecls_varDecl _ _ _ _) (block_cons hvd hb) hD1 hinv hrel hle1 hkrel h3 h4 h5
-          hfb htgt hus hfx hcalb
+        have htopd : ∀ y, y ∈ topDecls d.1 → ¬ y ∈ vn x :: keys gρ := fun y hy => (sokB_top d.1 _ hsokd y hy).2
+        exact let_body ha m d.2 x v.annTy body Γ K ρ gρ gw Bad _ D1 vv gv w1 gw1 (block_cons hvd hb)
+          (fun y hy => by
+            rw [keys_append, List.mem_append] at hy
+            simp only [topDecls, List.mem_cons]
+            rcases hy with hy | hy
+            · exact Or.inr (hD1 y hy)
+            · simp only [Goml.Dce.keys_cons, Goml.Dce.keys_nil, List.mem_singleton] at hy; exact Or.inl hy)
+          (fun h => htopd _ (hD1 _ h) List.mem_cons_self)
+          hinv hrel hle1 hkrel h3 h4 h5 hfb htgt hus hfx hcalb
       | fail fl w1 =>
         cases fl with
         | panic k =>
@@ -449,8 +437,8 @@ theorem stepA {env : Env} {file : AFile} {G : List String} {P : Prog} {F : GFile
         simp only [compileA, isCtl, Bool.false_eq_true, if_false, compileBindSimple] at hinv ⊢
         generalize hst1 : st.check (okBindSimple env (.go e .unit)) = st1 at hinv ⊢
         obtain ⟨X, hX⟩ := compileGo_isGo env e
-        have hdP : ndDecls [compileGo env e, .varDecl (vn x) .unit (some unitE)] = vn x :: [] := by
-          rw [hX]; simp [ndDecls, ndDeclsOf]
+        have hdP : topDecls [compileGo env e, .varDecl (vn x) .unit (some unitE)] = [vn x] := by
+          rw [hX]; simp [topDecls]
         have hG := hg e .unit η Γ K ρ w gρ gw Bad hfv hrel hw hinv.goodK hfx hcalv
         revert hG
         cases hres : Sem.eval n P ρ w (CExpr.go e .unit).toExpr with
@@ -459,8 +447,9 @@ theorem stepA {env : Env} {file : AFile} {G : List String} {P : Prog} {F : GFile
           simp only
           have hvd : StmtS F gρ gw1 (.varDecl (vn x) .unit (some unitE)) (.ok ((vn x, .unit) :: gρ, .normal) gw1) :=
             stmt_varDecl_some (by simp [absurdTy]) ev_unitv
-          exact let_body ha m st1 x .unit body Γ K ρ gρ gw Bad _ [] [] .unit .unit w1 gw1 hdP
-            (block_cons hs (block_cons hvd block_nil)) (fun y hy => by cases hy) hinv hrel hle1 hkrel (by simp [VRel]) trivial h5
+          exact let_body ha m st1 x .unit body Γ K ρ gρ gw Bad _ [] .unit .unit w1 gw1
+            (block_cons hs (block_cons hvd block_nil))
+            (fun y hy => by rw [hdP]; simpa [keys] using hy) (by simp [keys]) hinv hrel hle1 hkrel (by simp [VRel]) trivial h5
             hfb htgt hus hfx hcalb
         | fail fl w1 =>
           cases fl with
@@ -480,8 +469,8 @@ theorem stepA {env : Env} {file : AFile} {G : List String} {P : Prog} {F : GFile
         simp only
         have hvd : StmtS F gρ gw (.varDecl (vn x) (goTy v.annTy) (some (compileCExpr env v)))
             (.ok ((vn x, gv) :: gρ, .normal) gw1) := stmt_varDecl_some (flat_not_absurd hsc) he
-        exact let_body ha m st1 x v.annTy body Γ K ρ gρ gw Bad _ [] [] vv gv w1 gw1 (ndDecls_varDecl _ _ _ _) (block_cons hvd block_nil)
-          (fun y hy => by cases hy) hinv hrel hle1 hkrel h3 h4 h5 hfb htgt hus hfx hcalb
+        exact let_body ha m st1 x v.annTy body Γ K ρ gρ gw Bad _ [] vv gv w1 gw1 (block_cons hvd block_nil)
+          (fun y hy => by simpa [keys, topDecls] using hy) (by simp [keys]) hinv hrel hle1 hkrel h3 h4 h5 hfb htgt hus hfx hcalb
       | fail fl w1 =>
         cases fl with
         | panic k =>
@@ -533,7 +522,7 @@ theorem let_order {env : Env} {η : Hp} {file : AFile} {G : List String} {P : Pr
   · simp only [letPrefix, hctl, if_true] at hinvP ⊢
     rw [show cexprTy env v = goTy v.annTy by simp [cexprTy, cexprTastTy_frag hfv]] at hinvP ⊢
     generalize hd : compileTail env (.assign (rn x)) (st.check (okTy (cexprTastTy env v))) v = d at hinvP ⊢
-    have hfresh : ¬ vn x ∈ Goml.Dce.keys gρ := hinvP.disj _ (by rw [ndDecls_varDecl]; exact List.mem_cons_self)
+    obtain ⟨hfresh, _, hsokd⟩ := hinvP.varDecl
     have hvd : StmtS F gρ gw (.varDecl (vn x) (goTy v.annTy) none) (.ok ((vn x, zero F (goTy v.annTy)) :: gρ, .normal) gw) :=
       stmt_varDecl_none (flat_not_absurd hsc)
     have hne : ∀ y ty, lookupTy Γ y = some ty → vn y ≠ vn x := fun y ty hy e => by
@@ -541,11 +530,7 @@ theorem let_order {env : Env} {η : Hp} {file : AFile} {G : List String} {P : Pr
       exact hfresh (e ▸ Goml.Dce.key_of_lookup_some h2)
     have hrel1 : EnvRel env η Γ ρ ((vn x, zero F (goTy v.annTy)) :: gρ) :=
       hrel.go_agree (fun y ty hy => Goml.Dce.lookup_cons_ne _ _ (fun e => hne y ty hy e.symm))
-    have hinvd : GInv Bad d.1 ((vn x, zero F (goTy v.annTy)) :: gρ) :=
-      GInv.right (a := [GStmt.varDecl (vn x) (goTy v.annTy) none]) (b := d.1)
-        (D := [(vn x, zero F (goTy v.annTy))]) (U := gρ) (by simpa using hinvP) rfl (fun y hy => by
-          simp only [Goml.Dce.keys_cons, Goml.Dce.keys_nil, List.mem_singleton] at hy; subst hy
-          rw [ndDecls_varDecl]; exact List.mem_cons_self)
+    have hinvd : GInv Bad d.1 ((vn x, zero F (goTy v.annTy)) :: gρ) := hinvP.after_varDecl _
     have htgtd : TgtOK (.assign (rn x)) Γ ((vn x, zero F (goTy v.annTy)) :: gρ) v.annTy := by
       refine ⟨by rw [← vn_def]; simp, fun y ty hy => ?_⟩
       rw [← vn_def]; exact hne y ty hy
@@ -558,9 +543,8 @@ theorem let_order {env : Env} {η : Hp} {file : AFile} {G : List String} {P : Pr
       have hup : post (.assign (rn x)) ((vn x, zero F (goTy v.annTy)) :: gρ) gv = (vn x, gv) :: gρ := by
         simp only [post]; rw [← vn_def]; exact update_cons_self _ _ _ _
       rw [hup] at hb
-      have hxD1 : ¬ vn x ∈ Goml.Dce.keys D1 := fun h => by
-        have hnd := hinvP.nodup; rw [ndDecls_varDecl] at hnd
-        exact (List.nodup_cons.mp hnd).1 (hD1 _ h)
+      have hxD1 : ¬ vn x ∈ Goml.Dce.keys D1 := fun h =>
+        (sokB_top d.1 _ hsokd _ (hD1 _ h)).2 List.mem_cons_self
       exact ⟨η1, hle1, _, gv, gw1, block_cons hvd hb, h5, by rw [lookup_append_right hxD1]; exact Goml.Dce.lookup_cons_self _ _ _, h3⟩
     | fail fl w1 =>
       cases fl with
